@@ -67,6 +67,20 @@ def gen_dup_data(rng):
     return nd, series, True
 
 
+def gen_step_data(rng):
+    """unequal lengths with a very short first series; the others are two kinds of long step functions whose steps sit
+    at very different positions: distances (and the nearest mean) depend on warping far off the diagonal, so a band
+    derived from one series of the collection gives other assignments than unrestricted DTW"""
+    nd = rng.choice([1, 1, 2])
+    series = [[[float(rng.choice([0, 5]))] * nd for _ in range(2)]]
+    for _ in range(rng.randint(5, 9)):
+        L = rng.randint(9, 14)
+        a_ = rng.choice([1, 2, L - 3, L - 2])
+        lo, hi = rng.choice([(0, 5), (0, 5), (5, 0)])
+        series.append([[float(lo if t < a_ else hi)] * nd for t in range(L)])
+    return nd, series, False
+
+
 def containers(nd, series, equal_len, rng):
     if nd == 1:
         arrs = [np.array([pt[0] for pt in s], dtype=float) for s in series]
@@ -98,7 +112,13 @@ def run(ctx):
     for it in range(runs + dup_runs):
         outlier_stream = it < runs and it % 4 == 3
         dup_stream = it >= runs
-        if dup_stream:
+        step_stream = it < runs and it % 7 == 5
+        if step_stream:
+            nd, series, equal_len = gen_step_data(rng)
+            n = len(series)
+            k = 2
+            res.hit("step_stream_short_first_series")
+        elif dup_stream:
             nd, series, equal_len = gen_dup_data(rng)
             n = len(series)
             k = rng.randint(2, min(4, n - 1))
@@ -113,7 +133,7 @@ def run(ctx):
                 k = n - 1
         cname, data = containers(nd, series, equal_len, rng)
         opts = {}
-        if rng.random() < 0.5:
+        if rng.random() < 0.5 and not step_stream:
             opts["window"] = rng.choice([1, 2, 3])
         if rng.random() < 0.3:
             opts["penalty"] = rng.choice([0.5, 1.0])
